@@ -3,6 +3,7 @@ single-output elements, fan-out compositions, and generator -> element -> sink p
 import random
 
 from mc import net as N
+from mc import explore
 from mc.explore import Result
 
 from onl.sim import Environment
@@ -292,9 +293,11 @@ def plan(tier, seed):
             if quick and mode != (1, 1, 1) and a not in ("port", "wfq"):
                 continue
             cfgs.append(dict(shape="gen", a=a, flowidx=mode[0], absolute=mode[1], waits=mode[2], N=n1, delay0=[0, 1], finish=3))
+    # every configuration once more with long fixed workloads (state that only breaks after hundreds of packets)
+    nlong = explore.add_long(cfgs, 300 if quick else 1000)
     return {"cfgs": cfgs, "budget": None,
-            "bound": "N<=%d packets per workload; %d single elements, %d ordered chains, demux/switch/splitter/hub configurations, "
-                     "generator pipelines with <=%d draws per generator" % (n1, len(SINGLE) + 2, len(SINGLE) ** 2 + 2, n1)}
+            "bound": ("%d long fixed workloads (periodic arrival patterns); " % nlong) + ("N<=%d packets per workload; %d single elements, %d ordered chains, demux/switch/splitter/hub configurations, "
+                     "generator pipelines with <=%d draws per generator" % (n1, len(SINGLE) + 2, len(SINGLE) ** 2 + 2, n1))}
 
 
 def execute(ch, cfg):
